@@ -498,8 +498,13 @@ jose_jwe_dec_cek_io(jose_cfg_t *cfg, const json_t *jwe, const json_t *cek,
     const char *halg = NULL;
     const char *hzip = NULL;
 
-    prt = jose_b64_dec_load(json_object_get(jwe, "protected"));
-    (void) json_unpack(prt, "{s:s}", "zip", &hzip);
+    if (json_is_string(json_object_get(jwe, "protected"))) {
+        prt = jose_b64_dec_load(json_object_get(jwe, "protected"));
+        if (!prt)
+            return NULL;
+    }
+
+    hzip = json_string_value(json_object_get(prt, "zip"));
 
     hdr = jose_jwe_hdr(jwe, NULL);
     if (!hdr)
